@@ -11,6 +11,6 @@ git apply $MODE /verif/seeded/$NAME/patch.diff
 [ -f /verif/evidence/$PID.json ] && cp /verif/evidence/$PID.json /tmp/evidence_keep_$PID.json
 cd /verif && ./check $PID --tier $TIER > /tmp/try_${NAME}_${PID}.out 2> /tmp/try_${NAME}_${PID}.err; RC=$?
 [ -f /tmp/evidence_keep_$PID.json ] && mv /tmp/evidence_keep_$PID.json /verif/evidence/$PID.json
-cd /repo && git checkout -- . && git reset -q
+cd /repo && git reset -q --hard HEAD
 echo "SEED $NAME vs $PID ($TIER): exit=$RC $(grep -c '^VIOLATION' /tmp/try_${NAME}_${PID}.out) violation line(s)"
 grep -A1 '^VIOLATION' /tmp/try_${NAME}_${PID}.out | head -4; grep -E '^\s+\[' /tmp/try_${NAME}_${PID}.err | head -3 | cut -c1-300
